@@ -93,6 +93,10 @@ void MatrixPreprocess(matrix *orig,
     if(colaverage->size > 0){
       for(j = 0; j < trans->col; j++){
         for(i = 0; i < trans->row; i++){
+          if(FLOAT_EQ(orig->data[i][j], MISSING, 1e-1)){
+            /* same treatment as in the fit path: a missing value is neither centred nor scaled */
+            continue;
+          }
           trans->data[i][j] = orig->data[i][j] - colaverage->data[j];
         }
       }
